@@ -4,7 +4,7 @@
 Confirms a seeded defect produced by a sub-agent (patch_<k>.diff + demo_<k>.py in the scratch worktree):
   1. patch applies; demo exits 1 with it and 0 without; the repository suite shows only the 2 baseline failures with it
   2. copies patch + demo to /verif/seeded/<Cxx>-<k>/ and writes meta.json
-  3. applies the patch to /repo, runs ./check <Cxx> (quick), reverts /repo, restores evidence; records whether it was caught
+  3. applies the patch in a scratch worktree of /repo's HEAD, runs ./check <Cxx> (quick) against it (VERIF_REPO); records whether it was caught
 """
 import argparse
 import json
@@ -50,26 +50,22 @@ if not a.skip_confirm:
     shutil.copy(demo, dst / "demo.py")
 else:
     meta = json.loads((dst / "meta.json").read_text())
-# run the checks against /repo with the patch
-assert sh("git status --porcelain", "/repo").stdout.strip() == "", "/repo not clean"
-shutil.rmtree("/root/ev.bak", ignore_errors=True)
-shutil.copytree("/verif/evidence", "/root/ev.bak")
+# run the checks against a scratch worktree of /repo's HEAD with the patch applied (VERIF_REPO); /repo itself and the evidence are not touched
+run = Path(f"/tmp/wt-seedrun-{a.pid}-{a.k}")
+sh(f"git worktree remove --force {run}", "/repo")
+assert sh(f"git worktree add --detach {run} HEAD", "/repo").returncode == 0
 res = {}
 try:
-    assert sh(f"git apply {dst / 'patch.diff'}", "/repo").returncode == 0
+    assert sh(f"git apply {dst / 'patch.diff'}", run).returncode == 0, "patch does not apply to the current HEAD"
     for c in (a.checks or a.pid).split(","):
-        r = sh(f"./check {c} --tier quick", "/verif", 3000)
+        r = sh(f"VERIF_REPO={run} VERIF_NO_EVIDENCE=1 timeout 2400 ./check {c} --tier quick", "/verif", 3000)
         viol = [l for l in r.stdout.splitlines() if l.startswith("VIOLATION")]
         res[c] = {"exit": r.returncode, "violations": len(viol), "first": (r.stdout.split("what:")[1][:300].strip() if "what:" in r.stdout else "")}
         print(c, "exit", r.returncode, "violations", len(viol), res[c]["first"][:200])
-        if r.returncode == 2:
+        if r.returncode not in (0, 1):
             print(r.stdout[-1500:])
 finally:
-    sh("git checkout -- .", "/repo")
-    shutil.rmtree("/verif/evidence")
-    shutil.move("/root/ev.bak", "/verif/evidence")
-    for c in res:
-        shutil.rmtree(f"/verif/replays/{c}", ignore_errors=True)
+    sh(f"git worktree remove --force {run}", "/repo")
 meta.setdefault("checks", {}).update(res)
 meta["caught_by"] = sorted(c for c, v in meta["checks"].items() if v["exit"] == 1)
 (dst / "meta.json").write_text(json.dumps(meta, indent=1) + "\n")
